@@ -291,8 +291,28 @@ Section Verify.
     if str_eqb gen_q gen_a then Ok tt else Err EWrongAnswer.
 End Verify.
 
-(* QuestionModel.Verify = getVerifiedAnswer (for a match question that is not a
-   sub-question): getAnswer, then verifyMatch by answer type.
+(* frontmatter.go: validVerifications = "match" (default), "none", "parse-error",
+   "no-parse-error"; verification.UnmarshalText rejects everything else
+   (ErrInvalidFrontmatter) when the front matter is loaded.  An absent field
+   leaves the Go zero value "", which isMatchQuestion treats like "match". *)
+Inductive vmode : Type := VMatch | VNone | VParseError | VNoParseError.
+
+(* [None] = the field is absent; [Some v] = it is written, with value v *)
+Definition load_verification (v : option str) : res vmode :=
+  match v with
+  | None => Ok VMatch                                   (* isMatchQuestion: Verification == "" *)
+  | Some s =>
+      if str_eqb s (s_ "match") then Ok VMatch          (* isMatchQuestion: Verification == "match" *)
+      else if str_eqb s (s_ "none") then Ok VNone
+      else if str_eqb s (s_ "parse-error") then Ok VParseError
+      else if str_eqb s (s_ "no-parse-error") then Ok VNoParseError
+      else Err EInvalidFm                               (* unmarshalText *)
+  end.
+
+(* QuestionModel.Verify = getVerifiedAnswer (for a question that is not a
+   sub-question): getAnswer, then by verification mode: nothing (none),
+   verifyMatch by answer type (match), verifyParseError / verifyNoParseError.
+   [perrs]: generateParseErrors of the archive (parse modes only).
    [vchoice] is verify_choice (or verify_choice_before_fix, for regression). *)
 Section Question.
   Variables PK SK : Type.
@@ -303,8 +323,8 @@ Section Question.
   Variable run : str -> str.
   Variable vchoice : list nat -> list str -> str -> res unit.
 
-  Definition question_verify (ignore_sealed : bool) (privs : str) (verification_none : bool)
-             (f : fm) (is_src : bool) (outs : list str) (gen : str) : res unit :=
+  Definition question_verify (ignore_sealed : bool) (privs : str) (vm : vmode)
+             (f : fm) (is_src : bool) (outs : list str) (gen : str) (perrs : list bool) : res unit :=
     if ignore_sealed && negb (is_nil (sealed f)) then Ok tt        (* Verify: m.ignoreSealed && m.IsSealed() *)
     else
       match answer_text SK parse_priv rsa_dec gcm_open b64_dec privs f with
@@ -313,14 +333,47 @@ Section Question.
           match answer_marks (fm_type f) text with                 (* NewAnswer *)
           | Err e => Err e
           | Ok marks =>
-              if verification_none then Ok tt
-              else match fm_type f with
-                   | SingleChoice | MultipleChoice => vchoice marks outs gen
-                   | TextAnswer => verify_text run is_src gen text
-                   end
+              match vm with
+              | VNone => Ok tt                                     (* verification == "none" *)
+              | VMatch =>                                          (* isMatchQuestion: verifyMatch *)
+                  match fm_type f with
+                  | SingleChoice | MultipleChoice => vchoice marks outs gen
+                  | TextAnswer => verify_text run is_src gen text
+                  end
+              | VParseError => verify_parse_flags true marks perrs
+              | VNoParseError => verify_parse_flags false marks perrs
+              end
           end
       end.
 End Question.
+
+(* A verification HISTORY: what one process does when it verifies several
+   questions one after the other (levy verify / export walking an exercise
+   directory).  The Go code keeps no process-wide state between questions
+   (runEvy evaluates afresh every time; the only cache, evySource.output,
+   lives inside one renderer of one question), so the loop threads nothing
+   from one question to the next: the accumulator only collects verdicts. *)
+Record question : Type := mkQuestion {
+  q_ignore : bool; q_privs : str; q_vm : vmode; q_fm : fm; q_is_src : bool;
+  q_outs : list str; q_gen : str; q_perrs : list bool
+}.
+
+Section History.
+  Variable SK : Type.
+  Variable parse_priv : str -> option SK.
+  Variable rsa_dec : SK -> bytes -> option bytes.
+  Variable gcm_open : bytes -> bytes -> option bytes.
+  Variable b64_dec : str -> option bytes.
+  Variable run : str -> str.
+
+  Definition verify_one (q : question) : res unit :=
+    question_verify SK parse_priv rsa_dec gcm_open b64_dec run verify_choice
+      (q_ignore q) (q_privs q) (q_vm q) (q_fm q) (q_is_src q) (q_outs q) (q_gen q) (q_perrs q).
+
+  (* for _, q := range questions { verdicts = append(verdicts, q.Verify()) } *)
+  Definition verify_history (qs : list question) : list (res unit) :=
+    fold_left (fun verdicts q => verdicts ++ [verify_one q]) qs [].
+End History.
 
 (* ------------------------------------------------------------------ *)
 (* closed instances                                                    *)
@@ -462,12 +515,24 @@ Definition classify_case (c0 : bytes) (cs : list bytes) : sx :=
   | Some (r0, a0) => Str (map (fun c => class_char (ideal_hybrid_decrypt r0 a0 [] 0%nat c)) cs)
   end.
 
-(* (verify before_fix ignore key seal none atype "answer" is_src (outs…) "gen" "run-out")
-   key: none | right | wrong.  With seal = true the front matter is first
-   sealed (toy primitives, public key "K") exactly as the harness seals the
-   real one with the real key. *)
-Definition verify_case (before_fix ignore : bool) (key : sx) (seal vnone : bool) (ty : atype) (ans : str)
-           (is_src : bool) (outs : list str) (gen run_out : str) : sx :=
+(* (verify before_fix ignore key seal verification atype "answer" is_src (outs…) "gen" "run-out" (perr…))
+   key: none | right | wrong.  verification: the symbol absent, or the string
+   written in the front matter.  The front matter is loaded first (an invalid
+   verification value is rejected there); with seal = true it is then sealed
+   (toy primitives, public key "K") exactly as the harness seals the real one
+   with the real key. *)
+Definition dec_verification (x : sx) : option (option str) :=
+  match x with
+  | Str s => Some (Some s)
+  | Sym _ => if sym_is x "absent" then Some None else None
+  | _ => None
+  end.
+
+Definition verify_case (before_fix ignore : bool) (key : sx) (seal : bool) (verification : option str)
+           (ty : atype) (ans : str) (is_src : bool) (outs : list str) (gen run_out : str) (perrs : list bool) : sx :=
+  match load_verification verification with
+  | Err e => enc_err e
+  | Ok vm =>
   let f0 := mkFm ty ans [] in
   let f := if seal then toy_seal_fm (s_ "K") toy_key tt f0 else Ok f0 in
   let privs := if sym_is key "right" then s_ "K" else if sym_is key "wrong" then s_ "W" else [] in
@@ -477,7 +542,8 @@ Definition verify_case (before_fix ignore : bool) (key : sx) (seal vnone : bool)
       enc_res_unit (question_verify bytes toy_parse toy_rsa_dec toy_gcm_open toy_b64_dec
                       (fun _ => run_out)
                       (if before_fix then verify_choice_before_fix else verify_choice)
-                      ignore privs vnone f is_src outs gen)
+                      ignore privs vm f is_src outs gen perrs)
+  end
   end.
 
 (* (marks atype "answer") ↦ (ok i…) | error class *)
@@ -563,13 +629,13 @@ Definition seal_case (x : sx) : sx :=
       | Some ty => if sym_is tag "marks" then marks_case ty ans else Sym (s_ "decode-error")
       | None => Sym (s_ "decode-error")
       end
-  | Lst [tag; before_fix; ignore; key; seal; vnone; ty; Str ans; is_src; Lst outs; Str gen; Str run_out] =>
-      match dec_bool before_fix, dec_bool ignore, dec_bool seal, dec_bool vnone, dec_atype ty,
-            dec_bool is_src, dec_strs outs with
-      | Some before_fix, Some ignore, Some seal, Some vnone, Some ty, Some is_src, Some outs =>
-          if sym_is tag "verify" then verify_case before_fix ignore key seal vnone ty ans is_src outs gen run_out
+  | Lst [tag; before_fix; ignore; key; seal; verification; ty; Str ans; is_src; Lst outs; Str gen; Str run_out; Lst perrs] =>
+      match dec_bool before_fix, dec_bool ignore, dec_bool seal, dec_verification verification, dec_atype ty,
+            dec_bool is_src, dec_strs outs, dec_bools perrs with
+      | Some before_fix, Some ignore, Some seal, Some verification, Some ty, Some is_src, Some outs, Some perrs =>
+          if sym_is tag "verify" then verify_case before_fix ignore key seal verification ty ans is_src outs gen run_out perrs
           else Sym (s_ "decode-error")
-      | _, _, _, _, _, _, _ => Sym (s_ "decode-error")
+      | _, _, _, _, _, _, _, _ => Sym (s_ "decode-error")
       end
   | _ => Sym (s_ "decode-error")
   end.
